@@ -161,7 +161,15 @@ func trial(r *vh.Run, focus, bin string, i int) {
 		args = append(args, "--api-delete", "--api-blob-delete")
 	}
 	cmd := exec.Command("strace", args...)
-	cmd.Stdout, cmd.Stderr = io.Discard, io.Discard
+	// no pipes (a tracee that survives its tracer would keep them open and Wait would never return); own process
+	// group, so that both can be killed together
+	cmd.Stdout, cmd.Stderr = nil, nil
+	cmd.SysProcAttr = &syscall.SysProcAttr{Setpgid: true}
+	defer func() {
+		if cmd.Process != nil {
+			_ = syscall.Kill(-cmd.Process.Pid, syscall.SIGKILL)
+		}
+	}()
 	if err := cmd.Start(); err != nil {
 		r.Inconclusive("strace did not start: " + err.Error())
 		return
@@ -178,7 +186,7 @@ func trial(r *vh.Run, focus, bin string, i int) {
 	}
 	wit := map[string]any{"trial": i, "mode": mode, "legacy_fixture": legacy}
 	if !up {
-		_ = cmd.Process.Kill()
+		_ = syscall.Kill(-cmd.Process.Pid, syscall.SIGKILL)
 		<-done
 		r.Inconclusive("the traced binary did not come up")
 		return
@@ -251,7 +259,7 @@ func trial(r *vh.Run, focus, bin string, i int) {
 	select {
 	case <-done:
 	case <-time.After(30 * time.Second):
-		_ = cmd.Process.Kill()
+		_ = syscall.Kill(-cmd.Process.Pid, syscall.SIGKILL)
 		<-done
 		r.Inconclusive("the traced binary did not exit within 30 s after SIGTERM")
 	}
